@@ -13,7 +13,7 @@ pub fn build(tier: Tier) -> Check<'static> {
     c.assumptions = vec!["tokens are compared after lexing with models/lexref.rs".into()];
     let or = Oracles { strip: true, ..Default::default() };
     {
-        let sp = pp::cond_profile(tier == Tier::Quick, true);
+        let sp = pp::cond_profile(true, true); // the thorough C04 profile (65 M programs) is C04's business
         let stride = tier.pick(3, 1);
         let n = (sp.len() + stride - 1) / stride;
         c.parts.push(Part::new("cond-profile", n, "conditional profile with comment items (quick: every 3rd program)", move |i, acc| pp::check_prog(acc, &sp.get(i * stride), or, "conditional profile")));
